@@ -188,7 +188,11 @@ def gen(item, rng, tier):
     core = _core(rng, cfg, nt)
     s = rng.randrange(1, nt - 8)
     k = rng.choice([8, 16, 32, 64])
-    return {'scenario': 'replay', 'cores': [core], 's': s, 'k': k}
+    order = rng.choice(['lockstep', 'orig-first', 'orig-first', 'copies-first'])
+    if rng.random() < 0.15:
+        # a data device of 1 MiB or more (it shadows the smaller windows behind it): copies of large memories must be as private as small ones
+        core['devices'][2]['end'] = core['devices'][2]['begin'] + rng.choice([1 << 20, 1 << 21])
+    return {'scenario': 'replay', 'cores': [core], 's': s, 'k': k, 'order': order}
 
 
 # ------------------------------------------------------------------ execution helpers
@@ -367,20 +371,45 @@ def run_replay(case):
     bB.cores[0].arm.is_wait_for_event = arm.is_wait_for_event
     bB.cores[0].arm.is_wait_for_interrupt = arm.is_wait_for_interrupt
     tr0, trA, trB, ops = [], [], [], []
-    for _ in range(k):
-        ok0 = b.advance()
-        okA = bA.advance()
-        okB = bB.advance()
-        if not (ok0 and okA and okB):
-            if not (ok0 == okA == okB):
-                res['violations'].append({'oracle': 'replay.termination', 'site': 'advance', 'cls': 'length', 'detail': 'copies end at different ticks', 'tick': b.tick})
-            break
+    order = case.get('order', 'lockstep')
+
+    def step0():
+        if not b.advance():
+            return False
         tr0.append((_state(b, True), _state(b, False)))
-        trA.append(_state(bA, True))
-        trB.append(_state(bB, False))
         ops.append(type(b.cores[0].arm.executed_opcode).__name__)
         full.append(M.digest_of(sorted(tr0[-1][0].items())))
-    for j in range(len(tr0)):
+        return True
+
+    def stepA():
+        if not bA.advance():
+            return False
+        trA.append(_state(bA, True))
+        return True
+
+    def stepB():
+        if not bB.advance():
+            return False
+        trB.append(_state(bB, False))
+        return True
+
+    if order == 'lockstep':
+        for _ in range(k):
+            if not (step0() and stepA() and stepB()):
+                break
+    else:
+        # the original runs ahead of its copies (or the copies ahead of the original): whatever one of them stores after the
+        # snapshot must stay invisible to the others
+        seq = [step0, stepA, stepB] if order == 'orig-first' else [stepB, stepA, step0]
+        for fn in seq:
+            for _ in range(k):
+                if not fn():
+                    break
+    if not (len(tr0) == len(trA) == len(trB)):
+        res['violations'].append({'oracle': 'replay.termination', 'site': 'advance', 'cls': 'length', 'tick': b.tick,
+                                  'detail': 'copies end at different ticks: original %d, deep copy %d, rebuilt %d' % (len(tr0), len(trA), len(trB))})
+    n_cmp = min(len(tr0), len(trA), len(trB))
+    for j in range(n_cmp):
         if tr0[j][0] != trA[j]:
             d = _first_diff(tr0[j][0], trA[j])
             res['violations'].append({'oracle': 'replay.deepcopy_eq', 'site': ops[j], 'cls': _bucket(d), 'tick': s + j,
@@ -407,6 +436,7 @@ def run_replay(case):
         res['stats'][kk] = res['stats'].get(kk, 0) + v
     res['stats']['fault.snapshot-deepcopy'] = 1
     res['stats']['fault.snapshot-rebuild'] = 1
+    res['stats']['fault.snapshot-order-' + order] = 1
     for o in set(ops):
         res['cover'].add('replay|%d|%s' % (min(s // 32, 5), o))
     res['digest'] = M.digest_of(full)
